@@ -397,7 +397,27 @@ func min(a, b int) int {
 // boundaryCases: for a structure whose field `name` really is n, the field re-encoded in every
 // CompactSize form (exactly one of them is canonical).
 func boundaryCases(r *vlib.Rand, name string, n int, add func(kind byte, fam, fld string, data []byte)) {
-	b, fl := encodeTx(boundaryTx(r, name, n))
+	t := boundaryTx(r, name, n)
+	if name == "vin-count" || name == "vout-count" {
+		// offsets computed directly (the layout of 65536 inputs would cost more than the decoding)
+		b := t.Serialize(true)
+		off := 6 // version, marker, flag: boundaryTx always carries a witness
+		if name == "vout-count" {
+			off += reftx.CompactSizeLen(uint64(len(t.In)))
+			for i := range t.In {
+				off += 36 + reftx.CompactSizeLen(uint64(len(t.In[i].ScriptSig))) + len(t.In[i].ScriptSig) + 4
+			}
+		}
+		cl := reftx.CompactSizeLen(uint64(n))
+		if v, k, err := reftx.ReadCompactSize(b[off:]); err != nil || v != uint64(n) || k != cl || !t.HasWitness() {
+			panic("generator: boundary count not where expected: " + name)
+		}
+		for _, form := range csAllForms(uint64(n)) {
+			add('t', "cs-boundary", name, splice(b, off, cl, form))
+		}
+		return
+	}
+	b, fl := encodeTx(t)
 	for _, f := range fl {
 		if f.Count && f.Name == name && f.Val == uint64(n) {
 			for _, form := range csAllForms(uint64(n)) {
@@ -414,11 +434,13 @@ func boundaryBlock(r *vlib.Rand, n int, add func(kind byte, fam, fld string, dat
 	bl := randBlock(r, 1, 0)
 	hdr := bl.Header.Serialize()
 	cb := bl.Txs[0].Serialize(true)
-	t := &reftx.Tx{Version: 2, In: []reftx.TxIn{{Sequence: 0xffffffff}}, Out: []reftx.TxOut{{Value: 1, PkScript: []byte{0x51}}}}
-	body := make([]byte, 0, len(cb)+n*62)
+	// after the coinbase: empty transactions ("version 00 00 locktime", 10 bytes, accepted by both
+	// decoders), distinct through their lock time; keeps a 65536-transaction block at 0.65 MB
+	t := &reftx.Tx{Version: 2}
+	body := make([]byte, 0, len(cb)+n*10)
 	body = append(body, cb...)
 	for i := 1; i < n; i++ {
-		t.In[0].PrevHash[0], t.In[0].PrevHash[1], t.In[0].PrevHash[2] = byte(i), byte(i>>8), byte(i>>16)
+		t.LockTime = uint32(i)
 		body = append(body, t.Serialize(true)...)
 	}
 	for _, form := range csAllForms(uint64(n)) {
@@ -532,7 +554,7 @@ func genBatch(seed int64, batch int) []tcase {
 		for _, n := range []int{0xfc, 0xfd} {
 			boundaryCases(r, name, n, add)
 		}
-		if batch%4 == 0 { // 65535 / 65536 inputs are 2.7 MB per case
+		if batch%8 == 0 { // 65535 / 65536 inputs are 2.7 MB per case
 			boundaryCases(r, name, 0xffff, add)
 			boundaryCases(r, name, 0x10000, add)
 		}
@@ -668,7 +690,7 @@ func genBatch(seed int64, batch int) []tcase {
 
 	boundaryBlock(r, 0xfc, add)
 	boundaryBlock(r, 0xfd, add)
-	if batch%8 == 0 { // 65535 / 65536 transactions: 3.9 MB per case
+	if batch%16 == 4 { // 65535 / 65536 transactions
 		boundaryBlock(r, 0xffff, add)
 		boundaryBlock(r, 0x10000, add)
 	}
